@@ -153,35 +153,37 @@ void ppExGCD(word d[], word da[], word db[], const word a[], size_t n,
 	{
 		// пока u делится на x
 		for (; wwTestBit(u, 0) == 0; wwShLo(u, nu, 1))
-			if (wwTestBit(da0, 0) == 0)
+			if (wwTestBit(da0, 0) == 0 && wwTestBit(db0, 0) == 0)
 			{
 				// da0 <- da0 / x, db0 <- db0 / x
 				wwShLo(da0, m, 1);
-				ASSERT(wwTestBit(db0, 0) == 0);
 				wwShLo(db0, n, 1);
 			}
 			else
 			{
 				// da0 <- (da0 + bb) / x, db0 <- (db0 + aa) / x
-				wwXor2(da0, bb, m), wwShLo(da0, m, 1);
-				ASSERT(wwTestBit(db0, 0) == 1);
-				wwXor2(db0, aa, n), wwShLo(db0, n, 1);
+				wwXor2(da0, bb, m);
+				wwXor2(db0, aa, n);
+				ASSERT(wwTestBit(da0, 0) == 0 && wwTestBit(db0, 0) == 0);
+				wwShLo(da0, m, 1);
+				wwShLo(db0, n, 1);
 			}
 		// пока v делится на x
 		for (; wwTestBit(v, 0) == 0; wwShLo(v, mv, 1))
-			if (wwTestBit(da, 0) == 0)
+			if (wwTestBit(da, 0) == 0 && wwTestBit(db, 0) == 0)
 			{
 				// da <- da / x, db <- db / x
 				wwShLo(da, m, 1);
-				ASSERT(wwTestBit(db, 0) == 0);
 				wwShLo(db, n, 1);
 			}
 			else
 			{
 				// da <- (da + bb) / x, db <- (db + aa) / x
-				wwXor2(da, bb, m), wwShLo(da, m, 1);
-				ASSERT(wwTestBit(db, 0) == 1);
-				wwXor2(db, aa, n), wwShLo(db, n, 1);
+				wwXor2(da, bb, m);
+				wwXor2(db, aa, n);
+				ASSERT(wwTestBit(da, 0) == 0 && wwTestBit(db, 0) == 0);
+				wwShLo(da, m, 1);
+				wwShLo(db, n, 1);
 			}
 		// нормализация
 		nu = wwWordSize(u, nu);
@@ -203,10 +205,10 @@ void ppExGCD(word d[], word da[], word db[], const word a[], size_t n,
 		}
 	}
 	while (!wwIsZero(u, nu));
-	// d <- v
-	wwCopy(d, v, m);
-	// d <- d * 2^s
-	wwShHi(d, W_OF_B(wwBitSize(d, m) + s), s);
+	// d <- v (v умещается в [min(n, m)]d)
+	wwCopy(d, v, mv);
+	// d <- d * x^s
+	wwShHi(d, W_OF_B(wwBitSize(d, mv) + s), s);
 	// очистка
 	s = 0;
 }
